@@ -545,7 +545,13 @@ class Planner:
         md = self.metadata()
         if md is not None:
             kw["metadata"] = md
-        m = self.call("ufl.Measure", kind, kind="measure", **kw)
+        if md is None and r.random() < 0.35:
+            # the module-level measure (ufl.dx / ds / dS): dx(domain, ...) hands the global
+            # measure's own metadata dict on to every form built with it
+            out = self.new()
+            m = out if self.emit(["meth", out, ["fn", "ufl." + kind], "__call__", [], kw], kind="measure") else None
+        else:
+            m = self.call("ufl.Measure", kind, kind="measure", **kw)
         if m is not None and r.random() < 0.15:
             out = self.new()
             if self.emit(["meth", out, self.ref(m), "__call__", [], {"degree": r.choice([1, 2, 3])}], kind="measure"):
@@ -1114,8 +1120,8 @@ class Planner:
             stack.extend(self.refs_of(self.ops[i][2:]))
         return sorted(need)
 
-    def mutate_op(self, op, neardup):
-        """One field of one op changed (or None if nothing applicable)."""
+    def mutate_cands(self, op, neardup):
+        """All single-field changes of one op: list of (kind, changed op)."""
         r = self.rng
         op = [x for x in op]
         cands = []
@@ -1133,6 +1139,13 @@ class Planner:
             d3 = dict(d)
             d3["extra"] = 1
             cands.append(("addkey", ["lit", op[1], d3]))
+            for kk, vv in d.items():
+                if isinstance(vv, (int, float)) and not isinstance(vv, bool):
+                    cands.append(("strvalue", ["lit", op[1], dict(d, **{kk: str(vv)})]))
+                elif isinstance(vv, list) and (not vv or vv[0] != "t"):
+                    cands.append(("list2tuple", ["lit", op[1], dict(d, **{kk: ["t"] + list(vv)})]))
+                elif vv is None:
+                    cands.append(("nonestr", ["lit", op[1], dict(d, **{kk: "None"})]))
         if op[0] == "call":
             f, args = op[2], op[3]
             kw = op[4] if len(op) > 4 else {}
@@ -1140,6 +1153,11 @@ class Planner:
                 cands.append(("swapfn", ["call", op[1], self.SWAPS[f], args] + ([kw] if kw else [])))
             if f in ("operator.add", "operator.mul") and len(args) == 2:
                 cands.append(("commute", ["call", op[1], f, [args[1], args[0]]]))
+            if f in ("ufl.as_vector", "ufl.as_tensor", "ufl.as_matrix") and args and isinstance(args[0], list) and args[0] and not isinstance(args[0][0], str):
+                comps = args[0]
+                if len(comps) > 1:
+                    cands.append(("listshorter", ["call", op[1], f, [comps[:-1]] + args[1:]] + ([kw] if kw else [])))
+                cands.append(("listlonger", ["call", op[1], f, [comps + [comps[r.randrange(len(comps))]]] + args[1:]] + ([kw] if kw else [])))
             for i, a in enumerate(args):
                 if isinstance(a, bool):
                     continue
@@ -1173,9 +1191,13 @@ class Planner:
                     cands.append(("md", ["call", op[1], f, args, dict(kw, metadata={"quadrature_degree": 2})]))
         if op[0] == "meth" and op[3] == "__call__" and op[4] and op[4][0] in ("+", "-"):
             cands.append(("side", ["meth", op[1], op[2], "__call__", ["-" if op[4][0] == "+" else "+"]]))
+        return cands
+
+    def mutate_op(self, op, neardup):
+        cands = self.mutate_cands(op, neardup)
         if not cands:
             return None, None
-        return r.choice(cands)
+        return self.rng.choice(cands)
 
     def twin(self, target, prod, neardup, mutate):
         """Re-build ``target`` from the same terminals with fresh operator objects;
@@ -1184,7 +1206,17 @@ class Planner:
         idx = self.closure(target, prod)
         if not idx:
             return None, None
-        mpos = r.choice(idx) if mutate else None
+        mpos, mkind = None, None
+        if mutate:
+            # choose the kind of change uniformly first, then where to apply it
+            by_kind = {}
+            for i in idx:
+                for what, _ in self.mutate_cands(self.ops[i], neardup):
+                    by_kind.setdefault(what, set()).add(i)
+            if not by_kind:
+                return None, None
+            mkind = r.choice(sorted(by_kind))
+            mpos = r.choice(sorted(by_kind[mkind]))
         mapping = {}
         tag = "equal"
         for i in idx:
@@ -1192,13 +1224,9 @@ class Planner:
             new = self.new()
             op2 = [op[0], new] + self.sub_refs(op[2:], mapping)
             if i == mpos:
-                what, mop = self.mutate_op(op2, neardup)
-                if mop is None:
-                    # nothing to change in this op: try another position later in the closure
-                    rest = [j for j in idx if j > i]
-                    mpos = r.choice(rest) if rest else None
-                else:
-                    op2 = mop
+                cands = [c for c in self.mutate_cands(op2, neardup) if c[0] == mkind]
+                if cands:
+                    what, op2 = r.choice(cands)
                     tag = "near:" + what
             kind = self.info.get(op[1], {}).get("k")
             if not self.emit(op2, kind=kind):
@@ -1298,7 +1326,7 @@ class Planner:
                     lits.append(t)
         for i in range(len(lits)):
             for j in range(i + 1, len(lits)):
-                if r.random() < 0.12:
+                if r.random() < 0.05:
                     pairs.append([lits[i], lits[j], "lit"])
         return nd, pairs, lits
 
